@@ -853,3 +853,17 @@ def split_or_guard_arms(toks, log):
         if not changed:
             return out
     return out
+
+
+# R9: an iterator, by the sequence it yields -- the adapters a chain may use, each with std's meaning
+VITER_SPEC = r"""
+// an iterator, by the sequence it yields (R9: the adapters a chain may use)
+pub struct VIter<T> { pub v: Vec<T> }
+impl<T> VIter<T> {
+    pub fn cloned(self) -> (r: VIter<T>) ensures r.v@ == self.v@ { self }
+    #[verifier::external_body] pub fn rev(self) -> (r: VIter<T>) ensures r.v@ == self.v@.reverse() { unimplemented!() }
+    #[verifier::external_body] pub fn skip(self, n: usize) -> (r: VIter<T>) ensures r.v@ == (if n <= self.v@.len() { self.v@.skip(n as int) } else { Seq::empty() }) { unimplemented!() }
+    #[verifier::external_body] pub fn take(self, n: usize) -> (r: VIter<T>) ensures r.v@ == (if n <= self.v@.len() { self.v@.take(n as int) } else { self.v@ }) { unimplemented!() }
+    pub fn collect_vec(self) -> (r: Vec<T>) ensures r@ == self.v@ { self.v }
+}
+"""
